@@ -70,6 +70,28 @@ def loadElements (table : MassTable) (tol : Rat) (masses : List Rat) : List Stri
 def loadLabels (comments : List (Option String)) (elements : List String) : List String :=
   if comments.all (·.isSome) then comments.filterMap id else elements
 
+/-- one line of the Masses section: `<type id> <mass>   # <label>` -/
+structure MassLine where
+  id : Nat
+  mass : Rat
+  comment : Option String
+deriving DecidableEq, Repr, Inhabited
+
+/-- `masses.sort(key=lambda m: m[0])` (since commit 375e8ae): the lines ordered by their integer type id.  Python's sort
+    is stable; so is `List.mergeSort` — and a stable sort has exactly one result -/
+def orderLines (lines : List MassLine) : List MassLine := lines.mergeSort (fun a b => decide (a.id ≤ b.id))
+
+/-- the type tables `load_lmpdat` derives from the Masses section: (elements, labels) in type order -/
+def loadMasses (table : MassTable) (tol : Rat) (lines : List MassLine) : List String × List String :=
+  let s := orderLines lines
+  let els := loadElements table tol (s.map (·.mass))
+  (els, loadLabels (s.map (·.comment)) els)
+
+/-- BEFORE commit 375e8ae masses and labels were bound by LINE POSITION (kept only for the counterexample) -/
+def loadMassesByPosition (table : MassTable) (tol : Rat) (lines : List MassLine) : List String × List String :=
+  let els := loadElements table tol (lines.map (·.mass))
+  (els, loadLabels (lines.map (·.comment)) els)
+
 /-- ORIGINAL, defective scan (before commit 8dd645d), kept only for the machine-checked counterexample:
 
         for sym, mass in ATOMIC_MASSES.items():
